@@ -17,6 +17,7 @@ res = {}
 try:
     rc, out = sh("git -C /repo worktree add -q %s HEAD" % wt); assert rc == 0, out
     res["repo_head"] = sh("git -C /repo rev-parse --short HEAD")[1].strip()
+    os.makedirs(os.path.dirname(os.path.join(wt, dest)), exist_ok=True)
     shutil.copy(os.path.join(seed, "demo_test.go") if os.path.exists(os.path.join(seed, "demo_test.go")) else os.path.join(seed, "demo.go"), os.path.join(wt, dest))
     denv = env if dest.startswith("distsys/") else wsenv
     tags = os.environ.get("DEMO_TAGS", "")
